@@ -4,34 +4,52 @@
 (*   WithStack   adds a stack, no message                                      *)
 (*   WithMessage adds a message                                                *)
 (*   Wrap/Wrapf  add a message and a stack                                     *)
-(* Cause(e) is the root, identically; the text is the messages outer to inner  *)
-(* joined by ": " and ending in the root's text; every constructor maps nil    *)
-(* to nil.  New/Errorf create a fresh root.                                    *)
+(* Cause(e) is the root, identically, THROUGH ANY NUMBER OF LAYERS; the text   *)
+(* is the messages outer to inner joined by ": " and ending in the root's      *)
+(* text; every constructor maps nil to nil.  New/Errorf create a fresh root.   *)
+(* A nesting is a sequence of RUNS: one constructor applied n times in a row   *)
+(* (an error that bubbles up through a recursive descent or a retry loop that  *)
+(* annotates at every level), so that chains of depth 1000 stay small states.  *)
 EXTENDS Naturals, Sequences
 
-CONSTANTS MaxDepth, Msgs   \* Msgs: message tokens
+CONSTANTS MaxDepth,    \* number of runs
+          Msgs,        \* message tokens
+          Reps,        \* repeat counts of a run (depth classes)
+          MaxTotal,    \* bound of the total depth
+          CauseLimit   \* 0 (the property: Cause unwinds every layer). k > 0: named deviation "cause-depth-limited":
+                       \* the unwinding gives up after k layers and returns the layer it stands on
 
 VARIABLES root,    \* "nil" | "sentinel" (a foreign error value) | "new" | "errorf" (created by the package)
-          layers   \* constructors applied so far, innermost first: <<"stack">> or <<"msg", m>> or <<"wrap", m>> or <<"wrapf", m>>
+          layers   \* runs applied so far, innermost first: [k |-> "stack" | "msg" | "wrap" | "wrapf", m |-> message, n |-> repeat]
 vars == <<root, layers>>
 
+Run(k, m, n) == [k |-> k, m |-> m, n |-> n]
+RECURSIVE DepthOf(_)
+DepthOf(ls) == IF ls = <<>> THEN 0 ELSE ls[Len(ls)].n + DepthOf(SubSeq(ls, 1, Len(ls) - 1))
+Depth == DepthOf(layers)
+
 Init == root \in {"nil", "sentinel", "new", "errorf"} /\ layers = <<>>
-Apply(l) == Len(layers) < MaxDepth /\ layers' = Append(layers, l) /\ UNCHANGED root
-Next == \/ Apply(<<"stack">>)
-        \/ \E m \in Msgs : Apply(<<"msg", m>>) \/ Apply(<<"wrap", m>>) \/ Apply(<<"wrapf", m>>)
+Apply(r) == Len(layers) < MaxDepth /\ Depth + r.n <= MaxTotal /\ layers' = Append(layers, r) /\ UNCHANGED root
+Next == \E n \in Reps : \/ Apply(Run("stack", "", n))
+                        \/ \E m \in Msgs : \E k \in {"msg", "wrap", "wrapf"} : Apply(Run(k, m, n))
 Spec == Init /\ [][Next]_vars
 
 IsNil == root = "nil"
-\* messages outer to inner (layers are innermost first)
+\* messages outer to inner (layers are innermost first), as runs [m, n]
 RECURSIVE MsgsOf(_)
 MsgsOf(ls) == IF ls = <<>> THEN <<>>
               ELSE LET l == ls[Len(ls)]
                        rest == MsgsOf(SubSeq(ls, 1, Len(ls) - 1))
-                   IN IF l[1] = "stack" THEN rest ELSE <<l[2]>> \o rest
+                   IN IF l.k = "stack" THEN rest ELSE <<[m |-> l.m, n |-> l.n]>> \o rest
 Text == MsgsOf(layers)          \* followed by the root's own text
-Cause == root                   \* identity of the root, whatever the nesting
+\* what Cause returns: the root, whatever the nesting ("layer": a wrapper of the package itself)
+Cause == IF IsNil THEN "nil"
+         ELSE IF CauseLimit > 0 /\ Depth > CauseLimit THEN "layer" ELSE root
 
 \* properties of the model itself
 NilStaysNil == IsNil => Cause = "nil"
-TextLen == Len(Text) <= Len(layers)
+CauseIsRoot == Cause = root
+RECURSIVE TextDepth(_)
+TextDepth(t) == IF t = <<>> THEN 0 ELSE Head(t).n + TextDepth(Tail(t))
+TextLen == TextDepth(Text) <= Depth
 =============================================================================
